@@ -213,4 +213,49 @@ func init() {
 	addControl(Control{Prop: "C14", Name: "lend-ratio-price-failure-succeeds", File: "x/lend/keeper/rates.go",
 		Find: "\ttotalOut, err := k.Market.CalcAssetPrice(ctx, assetOut.Id, amountOut)\n\tif err != nil {\n\t\treturn sdk.ZeroDec(), err\n\t}", Replace: "\ttotalOut, err := k.Market.CalcAssetPrice(ctx, assetOut.Id, amountOut)\n\tif err != nil {\n\t\treturn sdk.ZeroDec(), nil\n\t}",
 		Rule: "R14.4", Contains: "failure branch succeeds"})
+
+	// behaviour-preserving refactorings (negative controls): the checks must stay silent
+	addControl(Control{Prop: "C01", Name: "draw-link-checks-extracted-into-helper", File: "x/vault/keeper/msg_server.go",
+		Find:    "\tif appMapping.Id != userVault.AppId {\n\t\treturn nil, types.ErrorInvalidAppMappingData\n\t}\n\tif extendedPairVault.Id != userVault.ExtendedPairVaultID {\n\t\treturn nil, types.ErrorInvalidExtendedPairMappingData\n\t}\n",
+		Replace: "\tif err := checkVaultLinks(appMapping.Id, extendedPairVault.Id, userVault); err != nil {\n\t\treturn nil, err\n\t}\n", Nth: 3, Negative: true,
+		Append: "\nfunc checkVaultLinks(appID, extendedPairID uint64, v types.Vault) error {\n\tif appID != v.AppId {\n\t\treturn types.ErrorInvalidAppMappingData\n\t}\n\tif extendedPairID != v.ExtendedPairVaultID {\n\t\treturn types.ErrorInvalidExtendedPairMappingData\n\t}\n\treturn nil\n}\n"})
+	addControl(Control{Prop: "C03", Name: "draw-link-checks-extracted-into-helper", File: "x/vault/keeper/msg_server.go",
+		Find:    "\tif appMapping.Id != userVault.AppId {\n\t\treturn nil, types.ErrorInvalidAppMappingData\n\t}\n\tif extendedPairVault.Id != userVault.ExtendedPairVaultID {\n\t\treturn nil, types.ErrorInvalidExtendedPairMappingData\n\t}\n",
+		Replace: "\tif err := checkVaultLinks2(appMapping.Id, extendedPairVault.Id, userVault); err != nil {\n\t\treturn nil, err\n\t}\n", Nth: 3, Negative: true,
+		Append: "\nfunc checkVaultLinks2(appID uint64, pairID uint64, v types.Vault) error {\n\tswitch {\n\tcase appID != v.AppId:\n\t\treturn types.ErrorInvalidAppMappingData\n\tcase pairID != v.ExtendedPairVaultID:\n\t\treturn types.ErrorInvalidExtendedPairMappingData\n\t}\n\treturn nil\n}\n"})
+
+	// ---- rules added after the third round of seeded changes ----
+	addControl(Control{Prop: "C03", Name: "debt-valued-with-collateral-decimals", File: "x/vault/keeper/vault.go",
+		Find: "denominator := sdk.NewDecFromInt(assetOutData.Decimals)", Replace: "denominator := sdk.NewDecFromInt(assetInData.Decimals)", Nth: 2,
+		Rule: "R03.9", Contains: "CalculateCollateralizationRatio"})
+	addControl(Control{Prop: "C09", Name: "v2-emode-threshold-from-eltv", File: "x/liquidationsV2/keeper/liquidate.go",
+		Find: "LiquidationThreshold = liqThreshold.ELiquidationThreshold", Replace: "LiquidationThreshold = liqThreshold.ELtv",
+		Rule: "R09.1", Contains: "LiquidateIndividualBorrow"})
+	addControl(Control{Prop: "C11", Name: "v1-surplus-bid-step-truncated", File: "x/auction/keeper/surplus.go",
+		Find: "change := auction.BidFactor.MulInt(auction.Bid.Amount).Ceil().TruncateInt()", Replace: "change := auction.BidFactor.MulInt(auction.Bid.Amount).TruncateInt()",
+		Rule: "R11.8", Contains: "bid step"})
+	addControl(Control{Prop: "C11", Name: "cancel-total-reduced-by-net-amount", File: "x/auctionsV2/keeper/bid.go",
+		Find: "protocolData.BidValue = protocolData.BidValue.Sub(amount)\n\terr = k.SetLimitBidProtocolData(ctx, protocolData)\n\tif err != nil {\n\t\treturn err\n\t}\n\n\treturn nil\n}\n\nfunc (k Keeper) WithdrawLimitAuctionBid(", Replace: "_ = amount\n\tprotocolData.BidValue = protocolData.BidValue.Sub(userLimitBid.DebtToken.Amount)\n\terr = k.SetLimitBidProtocolData(ctx, protocolData)\n\tif err != nil {\n\t\treturn err\n\t}\n\n\treturn nil\n}\n\nfunc (k Keeper) WithdrawLimitAuctionBid(",
+		Rule: "R11.5", Contains: "CancelLimitAuctionBid"})
+	addControl(Control{Prop: "C15", Name: "surplus-start-failure-returns-success", File: "x/auction/keeper/surplus.go",
+		Find: "\t\terr = k.StartSurplusAuction(ctx, sellToken, buyToken, collector.BidFactor, appID, assetID, assetBuyID, assetSellID)\n\t\tif err != nil {\n\t\t\treturn status, err\n\t\t}", Replace: "\t\terr = k.StartSurplusAuction(ctx, sellToken, buyToken, collector.BidFactor, appID, assetID, assetBuyID, assetSellID)\n\t\tif err != nil {\n\t\t\treturn auctiontypes.NoAuction, nil\n\t\t}",
+		Rule: "R15.6", Contains: "checkStatusOfNetFeesCollectedAndStartSurplusAuction"})
+	addControl(Control{Prop: "C20", Name: "liquidity-export-pool-counter-from-pair-counter", File: "x/liquidity/keeper/genesis.go",
+		Find: "LastPoolId:               k.GetLastPoolID(ctx, app.Id),", Replace: "LastPoolId:               k.GetLastPairID(ctx, app.Id),",
+		Rule: "R20.7", Contains: "LastPoolId <- GetLastPairID"})
+	addControl(Control{Prop: "C20", Name: "asset-import-name-index-from-denom", File: "x/asset/genesis.go",
+		Find: "k.SetAssetForName(ctx, item.Name, item.Id)", Replace: "k.SetAssetForName(ctx, item.Denom, item.Id)",
+		Rule: "R20.7", Contains: "SetAssetForName arg 1"})
+	// ---- C18 ----
+	addControl(Control{Prop: "C18", Name: "negative-elapsed-test-inverted", File: "x/rewards/keeper/iter.go",
+		Find: "if secondsElapsed < types.Int64Zero {", Replace: "if secondsElapsed > types.Int64Zero {",
+		Rule: "R18.1", Contains: "CalculationOfRewards"})
+	addControl(Control{Prop: "C18", Name: "negative-elapsed-LT-to-LTE-stricter", File: "x/rewards/keeper/iter.go",
+		Find: "if secondsElapsed < types.Int64Zero {", Replace: "if secondsElapsed <= types.Int64Zero {", Negative: true})
+	addControl(Control{Prop: "C18", Name: "locker-time-base-not-refreshed", File: "x/rewards/keeper/rewards.go",
+		Find: "\t\tlockerData.BlockTime = ctx.BlockTime()\n", Replace: "", Nth: 2,
+		Rule: "R18.2", Contains: "CalculateLockerRewards"})
+	addControl(Control{Prop: "C18", Name: "locker-carry-not-reduced-by-paid-units", File: "x/rewards/keeper/rewards.go",
+		Find: "lockerRewardsTracker.RewardsAccumulated = lockerRewardsTracker.RewardsAccumulated.Sub(newRewardDec)", Replace: "lockerRewardsTracker.RewardsAccumulated = lockerRewardsTracker.RewardsAccumulated.Sub(newRewardDec.Sub(newRewardDec))",
+		Rule: "R18.3", Contains: "CalculateLockerRewards"})
 }
